@@ -2,7 +2,7 @@
 """Confirm a seeded change written by a sub-agent, run the registered quick check against it and
 file it under /verif/seeded/<id>/.
 
-usage: tools_seeded.py <source-dir-with-patch.diff+demo.py> <seed-id e.g. C05-2> [--check-args ...]
+usage: tools_seeded.py <source-dir-with-patch.diff+demo.py> <seed-id e.g. C05-2> [--also=C04,C05] [check args ...]
 
 Steps (all in a scratch worktree of /repo under /tmp, removed afterwards):
   1. apply the patch; the pinned test suite must still pass;
@@ -28,7 +28,9 @@ def sh(cmd, cwd=None, env=None, timeout=1800):
 
 def main():
     src, sid = sys.argv[1], sys.argv[2]
-    extra = ' '.join(sys.argv[3:])
+    also = [a.split('=', 1)[1].split(',') for a in sys.argv[3:] if a.startswith('--also=')]
+    also = also[0] if also else []
+    extra = ' '.join(a for a in sys.argv[3:] if not a.startswith('--also='))
     pid = sid.split('-')[0]
     wt = '/tmp/wt-verify-%s' % sid
     sh('git -C %s worktree remove --force %s' % (REPO, wt))
@@ -73,6 +75,14 @@ def main():
         lines = [l for l in out.splitlines() if l.startswith(('VIOLATION', 'OK ', 'HARNESS-ERROR', '  harness='))]
         meta['check_output'] = lines[:8]
         meta['caught'] = rc == 1
+        # checks of other properties that the same change also violates (run only if the own check is silent)
+        for other in (also if rc != 1 else []):
+            rc2, out2 = sh('./check %s' % other, cwd=VERIF, timeout=3600)
+            lines2 = [l for l in out2.splitlines() if l.startswith(('VIOLATION', 'OK ', 'HARNESS-ERROR', '  harness='))]
+            meta.setdefault('other_checks', {})[other] = dict(exit=rc2, output=lines2[:4])
+            if rc2 == 1:
+                meta['caught_by_other'] = other
+            sh('rm -rf %s/replays/%s' % (VERIF, other))
     finally:
         sh('git -C %s checkout -- .' % REPO)
         sh('rm -rf %s/replays/%s' % (VERIF, pid))
